@@ -14,7 +14,26 @@ import (
 )
 
 func (vc *VC) call(st *State, x *ssa.Call) {
+	var aname string
+	var aord int
+	var aargs []Val
+	hasAnchors := vc.contract != nil && len(vc.contract.Asserts) > 0
+	if hasAnchors {
+		c := x.Common()
+		aname = callDisplayName(c)
+		aord = vc.callOrd[x]
+		if c.IsInvoke() {
+			aargs = append(aargs, vc.value(c.Value))
+		}
+		for _, a := range c.Args {
+			aargs = append(aargs, vc.value(a))
+		}
+		vc.runAnchors(st, "before", x, aname, aord, aargs, nil)
+	}
 	res := vc.callCommon(st, x.Common(), x.Type(), x)
+	if hasAnchors {
+		vc.runAnchors(st, "after", x, aname, aord, aargs, &res)
+	}
 	if x.Type() != nil {
 		if tp, ok := x.Type().(*types.Tuple); ok && tp.Len() == 0 {
 			vc.vals[x] = Val{K: KUnit}
@@ -64,8 +83,39 @@ func (vc *VC) callCommon(st *State, c *ssa.CallCommon, rt types.Type, site ssa.I
 	if cl, ok := vc.closures[fv.S]; ok && fv.S != "" {
 		return vc.callFunction(st, cl.fn, args, cl.bindings, rt)
 	}
-	vc.opaqueCalls["<function value> "+c.Value.Name()] = true
+	if vc.assumedPure(callDisplayName(c)) {
+		return vc.pureOpaqueResult(st, rt, callDisplayName(c))
+	}
+	vc.opaqueCalls["<function value> "+callDisplayName(c)] = true
 	return vc.opaqueResult(st, rt, "dyn")
+}
+
+func (vc *VC) assumedPure(name string) bool {
+	if vc.contract == nil {
+		return false
+	}
+	for _, n := range vc.contract.AssumePure {
+		if n == name {
+			return true
+		}
+	}
+	return false
+}
+
+// pureOpaqueResult: unconstrained result, no heap effect (an explicit assumption of the contract).
+func (vc *VC) pureOpaqueResult(st *State, rt types.Type, name string) Val {
+	vc.assumptions["calls named "+name+" are assumed not to modify the heap visible to "+vc.key+" (assume-pure)"] = true
+	na := vc.fresh("alloc")
+	vc.declare(na, "Int")
+	vc.assume(st, app("<=", st.alloc, na))
+	st.alloc = na
+	if rt == nil {
+		return Val{K: KUnit}
+	}
+	if tp, ok := rt.(*types.Tuple); ok && tp.Len() == 0 {
+		return Val{K: KUnit}
+	}
+	return vc.freshVal(st, rt, "r."+name)
 }
 
 func (vc *VC) opaqueResult(st *State, rt types.Type, what string) Val {
@@ -112,6 +162,9 @@ func (vc *VC) callFunction(st *State, fn *ssa.Function, args []Val, fvs []Val, r
 		}
 	}
 	if c == nil {
+		if vc.assumedPure(fn.Name()) {
+			return vc.pureOpaqueResult(st, rt, fn.Name())
+		}
 		vc.opaqueCalls[key] = true
 		return vc.opaqueResult(st, rt, fn.Name())
 	}
